@@ -1192,7 +1192,7 @@ def real_one(module, case):
 
             def echo(cummat, start, steps):
                 cm, perm = cummat
-                return np.array([int(start), int(steps)] + [int(math.floor(float(x) * 1024)) for x in np.asarray(cm).reshape(-1)] +
+                return np.array([int(start), int(steps)] + [int(math.floor(float(x) * 1024 + 0.5)) for x in np.asarray(cm).reshape(-1)] +
                                 [int(x) for x in np.asarray(perm).reshape(-1)], dtype=np.int64)
             mod._propagate_MCMC = echo
             if 'oracle' in case:
